@@ -152,7 +152,7 @@ def tlc(sc, module, cfg, workers=None, extra=(), timeout=600, dfs=False, xss=Tru
         cmd += ["-simulate", simulate]
     cmd += list(extra) + [module]
     env = dict(os.environ)
-    jopts = []
+    jopts = ["-Djava.io.tmpdir=" + meta]   # TLC leaves an empty tlc-<n> directory in the JVM's temp dir on every run
     if xss:
         jopts.append("-Xss512m")
     if dfs:
